@@ -370,6 +370,15 @@ func (svr *Server) handleConnection(c io.Closer) (svc *service, err error) {
 		}
 	}()
 
+	// Like the per-connection goroutines: a panic while handling one
+	// connection must not take the broker process down.
+	defer func() {
+		if r := recover(); r != nil {
+			log.Errorf("Recovering from panic while accepting a connection: %v", r)
+			svc, err = nil, fmt.Errorf("service: panic while accepting a connection: %v", r)
+		}
+	}()
+
 	conn, ok := c.(net.Conn)
 	if !ok {
 		return nil, ErrInvalidConnectionType
